@@ -1,0 +1,120 @@
+//go:build verif
+
+// Contracts for package support, checked by /verif (govc). Comments only;
+// compiled only with -tags verif; adds no code.
+
+package support
+
+// ---------------------------------------------------------------------------
+// Felsenstein bootstrap (properties C10, C11): worker closure of FBP
+// ---------------------------------------------------------------------------
+
+//@ func support.FBP$1
+//@   flag worker
+//@   flag noframe
+//@   requires boottrees != nil && foundEdges != nil && reftree != nil && sup != nil && !closed(foundEdges)
+//@   requires forall k int :: 0 <= k && k < len(edges) ==> edges[k] != nil
+//@   recv boottrees [message_is_a_tree_or_an_error] msg.Err == nil ==> msg.Tree != nil
+//@   ensures [done_on_every_path] ghost(wg_done) == old(ghost(wg_done)) + 1
+//@   return [input_error_is_recorded_unless_cancelled] treeV.Err != nil && !sup.stop ==> err != nil
+//@   return [indexing_or_taxon_error_is_recorded] inerr != nil ==> err != nil
+//@   call (*tree.Tree).CompareTipIndexes [only_after_successful_indexing] inerr == nil
+//@   call sync/atomic.AddInt32 [tree_counted_only_after_taxon_check] inerr == nil && a1 == 1
+//@   call (*tree.EdgeIndex).PutEdgeValue [only_inner_branches_of_the_bootstrap_tree_are_indexed] len(e2.right.neigh) != 1
+//@   send foundEdges [sent_iff_reference_branch_found_in_bootstrap_tree] ok && msg == rangeindex + 1
+//@   send foundEdges [message_is_an_index_of_a_reference_branch] 0 <= msg && msg < len(edges)
+//@   loop 1
+//@     invariant [no_pending_error] treeV.Err == nil && inerr == nil
+//@     invariant [captured_unchanged] boottrees == lold(boottrees) && foundEdges == lold(foundEdges) && reftree == lold(reftree) && sup == lold(sup) && edges == lold(edges)
+//@     invariant [reference_branches_intact] forall k int :: 0 <= k && k < len(edges) ==> edges[k] != nil
+//@     invariant [result_channel_open] !closed(foundEdges)
+//@     invariant [locks_balanced] ghost(lock_Lock) - ghost(lock_Unlock) == lold(ghost(lock_Lock) - ghost(lock_Unlock))
+//@   loop 2
+//@     invariant [locks_balanced] ghost(lock_Lock) - ghost(lock_Unlock) == lold(ghost(lock_Lock) - ghost(lock_Unlock))
+//@     invariant [bootstrap_branches_intact] forall k int :: 0 <= k && k < len(edges2) ==> edges2[k] != nil && edges2[k].right != nil
+//@     invariant [reference_branches_intact] forall k int :: 0 <= k && k < len(edges) ==> edges[k] != nil
+//@   loop 3
+//@     invariant [locks_balanced] ghost(lock_Lock) - ghost(lock_Unlock) == lold(ghost(lock_Lock) - ghost(lock_Unlock))
+//@     invariant [reference_branches_intact] forall k int :: 0 <= k && k < len(edges) ==> edges[k] != nil
+
+//@ func support.FBP$2
+//@   flag noframe
+//@   requires foundEdges != nil && !closed(foundEdges)
+//@   ensures [closed_exactly_once] closed(foundEdges)
+//@   ensures [closes_after_waiting] ghost(wg_wait) == old(ghost(wg_wait)) + 1 && ghost(ch_closed) == old(ghost(ch_closed)) + 1
+
+// The enclosing function: collector loop (loop 3) and final normalisation (loop 4)
+//@ func support.FBP
+//@   flag noframe
+//@   requires reftree != nil
+//@   recv foundEdges [message_is_an_index_of_a_reference_branch] 0 <= msg && msg < len(edges)
+//@   loop 1
+//@     invariant [reference_branches] forall k int :: 0 <= k && k < len(edges) ==> edges[k] != nil && edges[k].right != nil && edges[k].left != nil
+//@   loop 2
+//@     invariant [reference_branches] forall k int :: 0 <= k && k < len(edges) ==> edges[k] != nil && edges[k].right != nil && edges[k].left != nil
+//@     invariant [tally_size] len(foundBoot) == len(edges) && foundEdges != nil
+//@   loop 3
+//@     invariant [reference_branches] forall k int :: 0 <= k && k < len(edges) ==> edges[k] != nil && edges[k].right != nil && edges[k].left != nil
+//@     invariant [tally_size] len(foundBoot) == len(edges) && foundEdges != nil
+//@   loop 4
+//@     invariant [reference_branches] forall k int :: 0 <= k && k < len(edges) ==> edges[k] != nil && edges[k].right != nil && edges[k].left != nil
+//@     invariant [tally_size] len(foundBoot) == len(edges)
+//@     step [inner_branch_support_is_count_over_trees] len(edges[rangeindex + 1].right.neigh) != 1 ==> edges[rangeindex + 1].support == real(foundBoot[rangeindex + 1]) / real(ntrees)
+//@     step [tip_branches_receive_no_support] len(edges[rangeindex + 1].right.neigh) == 1 ==> edges[rangeindex + 1].support == atHead(edges[rangeindex + 1].support)
+
+// ---------------------------------------------------------------------------
+// Transfer bootstrap (properties C10, C11)
+// ---------------------------------------------------------------------------
+
+//@ func support.TBE
+//@   flag noframe
+//@   requires reftree != nil
+//@   call tree.NewEdgeIndex [bootstrap_tree_indexed_only_after_successful_taxon_check] err == nil
+
+//@ define topodepth(e *tree.Edge) int = e.ntaxleft <= e.ntaxright ? e.ntaxleft : e.ntaxright
+
+//@ func support.NormalizeTransferDistancesByDepth
+//@   requires forall k int :: 0 <= k && k < len(edges) ==> edges[k] != nil
+//@   requires forall k int, j int :: 0 <= k && k < j && j < len(edges) ==> edges[k] != edges[j]
+//@   requires forall k int :: 0 <= k && k < len(edges) ==> edges[k].ntaxleft >= 1 && edges[k].ntaxright >= 1
+//@   assigns tree.Edge.support
+//@   allocates iface
+//@   ensures [support_is_one_minus_mean_distance_over_depth_minus_one] forall k int :: 0 <= k && k < len(edges) && old(edges[k].support) != -1 ==> edges[k].support == 1 - (old(edges[k].support) / real(nboot)) / real(topodepth(edges[k]) - 1)
+//@   ensures [absent_support_stays_absent] forall k int :: 0 <= k && k < len(edges) && old(edges[k].support) == -1 ==> edges[k].support == -1
+//@   loop 1
+//@     assigns tree.Edge.support
+//@     invariant [done_prefix] forall k int :: 0 <= k && k <= rangeindex && old(edges[k].support) != -1 ==> edges[k].support == 1 - (old(edges[k].support) / real(nboot)) / real(topodepth(edges[k]) - 1)
+//@     invariant [done_prefix_absent] forall k int :: 0 <= k && k <= rangeindex && old(edges[k].support) == -1 ==> edges[k].support == -1
+//@     invariant [rest_untouched] forall k int :: rangeindex < k && k < len(edges) ==> edges[k].support == old(edges[k].support)
+
+//@ func support.ReformatAvgDistance
+//@   flag treeop
+//@   requires t != nil
+
+//@ func support.MinTransferDist
+//@   flag treeop
+//@   requires refedge != nil && reftree != nil && boottree != nil
+//@   allocates []uint, [][]*tree.Node, []*tree.Edge
+//@ func support.UpdateTaxaMoveArrays
+//@   requires ref != nil && mux != nil
+//@   assigns elems("float64"), cell(nb_branches_close), ghost(lock_Lock), ghost(lock_Unlock)
+//@   ensures [lock_released] ghost(lock_Lock) - ghost(lock_Unlock) == old(ghost(lock_Lock) - ghost(lock_Unlock))
+
+// edge worker of TBE: one reference branch per received message
+//@ func support.TBE$2
+//@   flag worker
+//@   flag noframe
+//@   requires edgechan != nil && bootedgeindex != nil && reftree != nil && boot.Tree != nil
+//@   recv edgechan [message_is_a_reference_branch] msg != nil
+//@   ensures [done_on_every_path] ghost(wg_done) == old(ghost(wg_done)) + 1
+//@   loop 1
+//@     invariant [locks_balanced] ghost(lock_Lock) - ghost(lock_Unlock) == lold(ghost(lock_Lock) - ghost(lock_Unlock))
+
+// feeder of TBE: sends every reference branch once, then closes the channel
+//@ func support.TBE$1
+//@   flag noframe
+//@   requires edgechan != nil && !closed(edgechan)
+//@   ensures [closed_exactly_once] closed(edgechan)
+//@   send edgechan [message_is_a_reference_branch] msg == edges[rangeindex + 1]
+//@   loop 1
+//@     invariant [channel_open] edgechan == lold(edgechan) && !closed(edgechan)
